@@ -105,6 +105,26 @@ theorem prepare_rejects_dangling (po : List String) (wf : Wf)
     rw [hr] at ha
     cases ha
 
+/-- An expression that is only the data root `$` (anywhere: a stage input, a workflow output, below a tag) is rejected.
+(Before /repo commit 1ef90ac `prepareExprDependencies` indexed `dependency[1]` of the one-element path and panicked.) -/
+theorem prepare_rejects_root_ref (po : List String) (wf : Wf)
+    (h : ∃ σ ∈ wf.allSites, Expr.root ∈ σ.exprs) : ∃ r, prepare po wf = .error r := by
+  obtain ⟨σ, hσ, he⟩ := h
+  exact prepare_rejects_dangling po wf
+    ⟨σ, hσ, .root, he, [], by simp [Expr.deps], .rootRef, by simp [Wf.resolve]⟩
+
+/-- `prepare` has no panic outcome: it accepts, or rejects with an ordinary error class.  (The model mirrors every
+statement of `executor.Prepare` that can fail; since the `len(dependency) < 2` guard none of them is a Go panic.) -/
+theorem prepare_never_panics (po : List String) (wf : Wf) :
+    (∃ g items, prepare po wf = .ok (g, items)) ∨ (∃ r, prepare po wf = .error r ∧ r.cls ≠ "panic") := by
+  cases h : prepare po wf with
+  | ok gi => exact Or.inl ⟨gi.1, gi.2, rfl⟩
+  | error r =>
+    refine Or.inr ⟨r, rfl, ?_⟩
+    cases r with
+    | graph e => cases e <;> simp [Reject.cls]
+    | _ => simp [Reject.cls]
+
 /-- The graph of an accepted workflow satisfies the dgraph invariant (unique ids, one edge per pair between existing
 nodes, outstanding-dependency lists in step with the edges), all nodes are waiting, nothing is resolved or ready. -/
 theorem prepare_inv (po : List String) (wf : Wf) (g : Graph String) (items : List (String × Item))
@@ -151,6 +171,10 @@ def demoCyclic : Wf :=
 def demoDangling : Wf :=
   { demo with outputs := [("success", .map [("r", .expr (ref "ghost" ["outputs", "success", "s"]))])] }
 
+/-- the output is the whole data root -/
+def demoRootRef : Wf :=
+  { demo with outputs := [("success", .map [("r", .expr .root)])] }
+
 def verdictOf (r : Except Reject (Graph String × List (String × Item))) : String :=
   match r with
   | .ok (g, _) => "accepted:" ++ toString g.nodes.length ++ ":" ++ toString g.edges.length
@@ -159,6 +183,7 @@ def verdictOf (r : Except Reject (Graph String × List (String × Item))) : Stri
 example : verdictOf (prepare po demo) = "accepted:46:62" := by decide +kernel
 example : verdictOf (prepare po demoCyclic) = "rejected:cycle" := by decide +kernel
 example : verdictOf (prepare po demoDangling) = "rejected:dangling" := by decide +kernel
+example : verdictOf (prepare po demoRootRef) = "rejected:dangling" := by decide +kernel
 
 /-- the optional input of `b` hangs off a group node with a completion-and edge; the group requires `a`'s output -/
 example : ("steps.b.starting.s", "steps.b.starting", Dep.cand) ∈ impliedEdges po demo
